@@ -89,6 +89,7 @@ func c14ServerScenario(name string, newStreams int, bound int) vsched.Scenario {
 		x.Final(func(x *vsched.X) {
 			for _, p := range x.Panics {
 				x.Fail("C14", "panic", "%s", p)
+				x.Fail("C25", "panic", "%s", p)
 			}
 			var finalID uint32
 			finals := 0
@@ -127,8 +128,10 @@ func c14ServerScenario(name string, newStreams int, bound int) vsched.Scenario {
 				switch {
 				case id <= finalID && !h && !rst[id]:
 					x.Fail("C14", "server/accepted-stream-dropped", "final GOAWAY last-stream-id %d covers stream %d, but no handler ran for it and it was not reset: the client will wait forever (%s)", finalID, id, peer.LogString())
+					x.Fail("C25", "server/accepted-stream-dropped", "final GOAWAY last-stream-id %d covers stream %d, but no handler ran for it and it was not reset: the client will wait forever (%s)", finalID, id, peer.LogString())
 				case id > finalID && h:
 					x.Fail("C14", "server/handled-stream-above-final-goaway", "handler ran for stream %d above the final GOAWAY last-stream-id %d", id, finalID)
+					x.Fail("C25", "server/handled-stream-above-final-goaway", "handler ran for stream %d above the final GOAWAY last-stream-id %d", id, finalID)
 				}
 			}
 			if finalID != maxHandled && finalID < maxHandled {
